@@ -173,13 +173,16 @@ def _derive_from_param(f, l, depth=0, seen=None, had_field=False):
         elif d[0] == "call":
             c = d[2]
             srcs = []
+            # taking an element out of a collection of nodes is a strict descent too (list of statements > one statement)
+            elem_step = bool(re.search(r"Iterator>::next$|Iterator::next$|::next_back$|ops::Index<.*>>::index$|<impl \[T\]>::(first|last|get)$|Option::<T>::as_deref$",
+                                       (c.get("res") or "") + " " + (c.get("fn") or "")))
             for a in c["args"]:
                 p = op_place(a)
                 if p is None:
                     continue
                 sl = place_local(p)
                 if _ast_typed(f, sl):
-                    hf = had_field or any(o.startswith(AST_PREFIXES) for o, _n in proj_fields(place_projs(p)))
+                    hf = had_field or elem_step or any(o.startswith(AST_PREFIXES) for o, _n in proj_fields(place_projs(p)))
                     srcs.append((sl, hf))
             if not srcs:
                 out.add((("other", "call:" + (c.get("res") or "?")), had_field))
@@ -298,12 +301,12 @@ def classify_scc(ctx, crate, cg, comp):
         fresh = []
         for gid in comp:
             g = crate.fns[gid]
-            gvis = [i for i in range(1, g.argc + 1) if g.local_ty(i).startswith("&mut std::collections::HashSet<")]
+            gvis = [i for i in range(1, g.argc + 1) if g.local_ty(i) == f.local_ty(v)]
             for bb, t, via in cg.callees(gid):
                 if t not in comp_set or via != "direct":
                     continue
                 tf = crate.fns[t]
-                tvis = [i for i in range(1, tf.argc + 1) if tf.local_ty(i).startswith("&mut std::collections::HashSet<")]
+                tvis = [i for i in range(1, tf.argc + 1) if tf.local_ty(i) == f.local_ty(v)]
                 if not tvis:
                     continue
                 c = g.blocks[bb]["t"][1]
@@ -330,12 +333,18 @@ def classify_scc(ctx, crate, cg, comp):
                 ast_args = [a for a in c["args"] if op_local(a) is not None and _ast_typed(f, op_local(a))
                             and not f.local_ty(op_local(a)).lstrip("&").startswith(("{closure@", "fn(", "{async"))]
                 if not ast_args:
+                    if tf.kind == "closure" and tf.argc <= 1:
+                        # a thunk (`.or_else(|| ...)`): the adaptor hands it nothing; its own calls are checked through
+                        # the captured variables
+                        continue
                     # closure invoked with elements of a non-AST collection
                     problems.append("%s -> %s via %s without an AST-typed argument" % (fid, t, via))
                     continue
                 for a in ast_args:
                     p = op_place(a)
-                    roots = _derive_from_param(f, place_local(p), had_field=any(o.startswith(AST_PREFIXES) for o, _ in proj_fields(place_projs(p))))
+                    # the adaptor hands ELEMENTS of this collection / iterator to the closure: an element of a collection that
+                    # derives from a parameter is already a strict sub-node
+                    roots = _derive_from_param(f, place_local(p), had_field=True)
                     bad = [x for x in roots if not _strict(f, x)]
                     if bad:
                         problems.append("%s -> %s: argument not a strict sub-node: %s" % (fid, t, sorted(bad)[:3]))
